@@ -630,7 +630,24 @@ class Gen:
             if ruled and r.random() < 0.7:
                 self.features.add('tabular:rule')
                 rule = r.choice(['\\hline ', '\\hline\n', '\\cline{1-%d} ' % r.randint(1, cols), '\\hline\\hline '])
-            rows.append(rule + ' & '.join(self.inlines(min(depth - 1, 1)) for _ in range(cols)))
+            cells = []
+            c = 0
+            while c < cols:
+                q = r.random()
+                if cols > 1 and q < 0.22:
+                    # an empty / blank cell next to filled ones (or a whole row of them)
+                    self.features.add('tabular:emptycell')
+                    cells.append(r.choice(['', ' ', '  ']))
+                    c += 1
+                elif cols - c >= 2 and q < 0.30:
+                    span = r.randint(2, cols - c)
+                    self.features.add('tabular:multicolumn')
+                    cells.append('\\multicolumn{%d}{%s}{%s}' % (span, r.choice('lcr'), self.inlines(min(depth - 1, 1))))
+                    c += span
+                else:
+                    cells.append(self.inlines(min(depth - 1, 1)))
+                    c += 1
+            rows.append(rule + ' & '.join(cells))
         body = ' \\\\\n'.join(rows)
         if ruled and r.random() < 0.6:
             body += ' \\\\ \\hline'
